@@ -50,6 +50,8 @@ func c18(c *Ctx) {
 	r.Explanation = "C18 is decided through its structural necessary (and, modulo the stdlib contract table, sufficient) condition: no concurrent entry point writes memory reachable from the shared object or from a package-level variable. " +
 		"(nowrite) for every method of every product type implementing a primitive / key / parameters interface, every exported method of keyset.Handle, keyset.Entry and prf.Set, and the registry lookup functions, the receiver (shallow and deep) and all module globals are absent from the function's write set W computed by engine B — including appends onto slices held in fields and receiver-mutating stdlib methods (hash.Hash.Write, cipher.Stream.XORKeyStream, big.Int setters, bytes.Buffer…) applied to objects reachable from the receiver; " +
 		"(globals) every product package-level variable that is written outside package initialisation is a synchronised type or every direct access to it is dominated by Lock/RLock of one fixed mutex with a deferred Unlock. " +
+		"(derived) per-call objects that keep a pointer to the shared primitive (streaming readers/writers, iterators): none of their methods, nor any other function, writes through a field holding such a pointer into the shared primitive's own memory (element stores, map updates, copy, append through it). " +
+		"(pool) an object handed back to a sync.Pool (Put, also deferred) is not returned to the caller, in whole or as a slice/field of it: after Put another goroutine may own it. " +
 		"Not decided: schedules as such; thread safety of user-supplied loggers, KMS clients and io objects."
 
 	// ---- collect shared types and their concurrent methods
@@ -77,6 +79,9 @@ func c18(c *Ctx) {
 		impls := p.Implementers(it, core.Product)
 		nTypes += len(impls)
 		for _, t := range impls {
+			if n := core.NamedOf(t); n != nil && in[0] != "key" {
+				c18Shared[n.Origin()] = true
+			}
 			for i := 0; i < it.NumMethods(); i++ {
 				add(p.MethodOf(t, it.Method(i).Name()), "implements "+in[0]+"."+in[1], true)
 			}
@@ -206,6 +211,8 @@ func c18(c *Ctx) {
 	r.Min("C18.nowrite", 500)
 
 	c18Globals(c)
+	c18Pool(c)
+	c18Derived(c)
 
 	// positive control: a per-stream type (not shared) must be seen mutating its receiver
 	if f := p.Method("streamingaead/subtle/noncebased", "Writer", true, "Write"); f == nil {
@@ -565,4 +572,181 @@ func c18Globals(c *Ctx) {
 		}
 	}
 	r.Min("C18.globals", 2)
+}
+
+// c18Pool: typestate of pooled objects. After pool.Put(x) — in particular a
+// deferred Put — x belongs to whoever calls Get next. A function that puts x
+// back and returns x, or a slice / element / field address of x, hands its
+// caller memory that another goroutine may overwrite.
+func c18Pool(c *Ctx) {
+	p, r := c.P, c.R
+	base := func(v ssa.Value) ssa.Value {
+		for i := 0; i < 12; i++ {
+			v = guard.Strip(v)
+			switch x := v.(type) {
+			case *ssa.Slice:
+				v = x.X
+			case *ssa.IndexAddr:
+				v = x.X
+			case *ssa.FieldAddr:
+				v = x.X
+			case *ssa.TypeAssert:
+				v = x.X
+			case *ssa.MakeInterface:
+				v = x.X
+			case *ssa.ChangeInterface:
+				v = x.X
+			case *ssa.Extract:
+				v = x.Tuple
+			case *ssa.UnOp:
+				// a result spilled into a local because of a defer: the one value stored there
+				al, isAl := x.X.(*ssa.Alloc)
+				if x.Op != token.MUL || !isAl {
+					return v
+				}
+				var stored ssa.Value
+				nSt := 0
+				for _, ref := range *al.Referrers() {
+					if st, isSt := ref.(*ssa.Store); isSt && st.Addr == ssa.Value(al) {
+						stored = st.Val
+						nSt++
+					}
+				}
+				if nSt != 1 {
+					return v
+				}
+				v = stored
+			default:
+				return v
+			}
+		}
+		return v
+	}
+	n := 0
+	for _, f := range p.SortedFuncs(core.Product) {
+		allInstrs(f, func(ins ssa.Instruction) {
+			ci, ok := ins.(ssa.CallInstruction)
+			if !ok || guard.CalleeName(ci.Common()) != "(*sync.Pool).Put" || len(ci.Common().Args) < 2 {
+				return
+			}
+			n++
+			obj := base(ci.Common().Args[1])
+			key := fmt.Sprintf("C18.pool/%s/Put", core.FuncID(f))
+			bad := ""
+			for _, ret := range guard.Returns(f) {
+				for _, res := range ret.Results {
+					if !a18HasRefs(res.Type()) {
+						continue
+					}
+					if base(res) == obj {
+						bad = "the function puts an object back into a sync.Pool and returns memory of that same object to its caller (" + p.Pos(ret.Pos()) + "): the next Get may hand it to another goroutine while the caller still reads it"
+					}
+				}
+			}
+			r.Check(bad == "", "C18.pool", key, p.Pos(ins.Pos()), bad, "no result of the function is (a slice, element or field of) the object put back")
+		})
+	}
+	r.Counts["pool_put_sites"] = n
+	if n == 0 {
+		r.Ok("C18.pool", "C18.pool/none", "-", "no sync.Pool.Put in product code")
+	}
+}
+
+func a18HasRefs(t types.Type) bool {
+	switch t.Underlying().(type) {
+	case *types.Basic:
+		return false
+	}
+	return true
+}
+
+// c18Shared: the named types implementing a primitive interface (shared between goroutines).
+var c18Shared = map[*types.Named]bool{}
+
+// c18Derived: a per-call object (a decrypting reader, an iterator) may hold a
+// pointer to the shared primitive that created it. Its methods are not entry
+// points of (nowrite), yet a write through that pointer — reordering the
+// primitive's slice, caching in its fields — is a write to shared memory by
+// whatever goroutine uses the per-call object. For every function whose
+// receiver is not itself a shared type: no Store / MapUpdate / copy
+// destination / append base whose address is reached through a load of a field
+// of (pointer to) shared type.
+func c18Derived(c *Ctx) {
+	p, r := c.P, c.R
+	isShared := func(t types.Type) bool {
+		if pt, ok := t.Underlying().(*types.Pointer); ok {
+			t = pt.Elem()
+		}
+		n := core.NamedOf(t)
+		return n != nil && c18Shared[n.Origin()]
+	}
+	// through: the address/value v is reached through a field that holds a shared object
+	var through func(v ssa.Value, depth int, below bool) (string, bool)
+	through = func(v ssa.Value, depth int, below bool) (string, bool) {
+		if depth > 10 {
+			return "", false
+		}
+		v = guard.Strip(v)
+		switch x := v.(type) {
+		case *ssa.IndexAddr:
+			return through(x.X, depth+1, true)
+		case *ssa.FieldAddr:
+			return through(x.X, depth+1, true)
+		case *ssa.Slice:
+			return through(x.X, depth+1, below)
+		case *ssa.Index:
+			return through(x.X, depth+1, true)
+		case *ssa.UnOp:
+			if x.Op != token.MUL {
+				return "", false
+			}
+			if fa, isFA := x.X.(*ssa.FieldAddr); isFA && below && isShared(x.Type()) {
+				if _, fresh := guard.Strip(fa.X).(*ssa.Alloc); !fresh {
+					st := fa.X.Type().Underlying().(*types.Pointer).Elem().Underlying().(*types.Struct)
+					return st.Field(fa.Field).Name(), true
+				}
+			}
+			return through(x.X, depth+1, true)
+		}
+		return "", false
+	}
+	n := 0
+	for _, f := range p.SortedFuncs(core.Product) {
+		if f.Synthetic != "" || f.Blocks == nil {
+			continue
+		}
+		if f.Signature.Recv() != nil && isShared(f.Signature.Recv().Type()) {
+			continue // decided by (nowrite)
+		}
+		fid := core.FuncID(f)
+		report := func(ins ssa.Instruction, fld, what string) {
+			r.Bad("C18.derived", fmt.Sprintf("C18.derived/%s/%s via %s", fid, what, fld), p.Pos(ins.Pos()),
+				"writes into the memory of a shared primitive through the pointer kept in field "+fld+" ("+what+"): concurrent users of the primitive, or of other objects derived from it, race with this write")
+		}
+		allInstrs(f, func(ins ssa.Instruction) {
+			switch x := ins.(type) {
+			case *ssa.Store:
+				if fld, ok := through(x.Addr, 0, false); ok {
+					n++
+					report(ins, fld, "store")
+				}
+			case *ssa.MapUpdate:
+				if fld, ok := through(x.Map, 0, true); ok {
+					n++
+					report(ins, fld, "map update")
+				}
+			case *ssa.Call:
+				if b, isB := x.Call.Value.(*ssa.Builtin); isB && (b.Name() == "copy" || b.Name() == "append" || b.Name() == "clear") && len(x.Call.Args) > 0 {
+					if fld, ok := through(x.Call.Args[0], 0, b.Name() != "append"); ok && b.Name() != "append" {
+						n++
+						report(ins, fld, b.Name())
+					}
+				}
+			}
+		})
+	}
+	r.Counts["writes_through_shared_pointer_fields"] = n
+	if n == 0 {
+		r.Ok("C18.derived", "C18.derived/none", "-", fmt.Sprintf("no write through a field holding one of the %d shared primitive types, outside those types' own methods", len(c18Shared)))
+	}
 }
